@@ -1707,8 +1707,9 @@ PROPS = {
                      'CatWF of the translated catalogue is a hypothesis of solved_return_balances (names are form.line)']),
     'C16': dict(run=run_C16, theorems=['HabuVerif.C16.' + t for t in [
         'shapes_2021', 'shapes_2022', 'shapes_2023', 'withholding_total', 'renumbering_keeps_withholding',
-        'net_is_payments_minus_tax', 'solved_net_is_payments_minus_tax', 'withholding_one_for_one']],
-        assumptions=['PARTIAL: proved in exact cents for Form 1040 line 25a (sum over the W-2 copies: a function of the multiset of amounts, at most 64 copies of at most 1e9 dollars) and for refund-minus-owed = 25a+25b+25c+26+32-24 in every returned state (amounts up to 1e10 dollars); that lines 24, 25b, 25c, 26, 32 do not depend on W-2 box 2, the renumbering invariance of the other per-payer totals, and the monotonicity of total tax in wages and deductions are explored by the metamorphic oracle on real returns, not proved']),
+        'net_is_payments_minus_tax', 'solved_net_is_payments_minus_tax', 'withholding_one_for_one',
+        'float_sum_line_total', 'float_sum_line_renumbering', 'float_sum_lines_2021', 'float_sum_lines_2022', 'float_sum_lines_2023']],
+        assumptions=['PARTIAL: proved in exact cents for Form 1040 line 25a and for the float(sum(copies)) lines 1040.2a, 8959.1, 8959.19 (sum over the copies: a function of the multiset of amounts, at most 64 copies of at most 1e9 dollars) and for refund-minus-owed = 25a+25b+25c+26+32-24 in every returned state (amounts up to 1e10 dollars); that lines 24, 25b, 25c, 26, 32 do not depend on W-2 box 2, the renumbering invariance of the other per-payer totals, and the monotonicity of total tax in wages and deductions are explored by the metamorphic oracle on real returns, not proved']),
     'C17': dict(run=run_C17, theorems=['HabuVerif.C17.' + t for t in [
         'names_unique', 'threshold_lookup_total', 'all_threshold_lookups_total', 'names_clean',
         'every_class_instantiates', 'declared_year_is_directory_year', 'metadata_present']],
